@@ -115,6 +115,88 @@ def r6_7(ctx, fx):
     ctx.floor(rid, n, 4, "pivoting runs")
 
 
+def r6_8(ctx, fx):
+    from pplv import flow
+    rid = "R6.8"
+    ctx.rule(rid, "facts read off the witness do not outlive a change of the tableau: a local that a callee fills from tests against the cached point (an out-parameter written under `is_satisfied(c, last_generator)` / `is_saturated(..)`: which pending inequalities already hold and need no artificial variable) is not read after a call of merge_split_variable() — which can make a tableau row unfeasible, so that the tableau no longer sits on that point — unless every path from the call to the read rewrites the local or passes a test, on what the merges reported, whose taken branch rewrites it. Otherwise a pending inequality enters the basis through its slack on the word of a stale point, and the incremental solve answers differently from a fresh one")
+    ms = [f for f in fx.functions if f.clsn == "MIP_Problem" and f.cfg and not f.flag("pattern")]
+    # 1. out-parameters filled from tests against the witness
+    derived = {}
+    for g in ms:
+        for i_ in g.walk():
+            if i_["k"] != "if":
+                continue
+            cond = g.deref(i_["c"][2])
+            if not any(g.call_name(c) in ("is_satisfied", "is_saturated") and "last_generator" in g.text(c) for c in g.calls(cond)):
+                continue
+            for a in g.walk(g.deref(i_["c"][3])):
+                if a["k"] in ("assign", "ocall") and (a["k"] == "assign" or a.get("op") == "="):
+                    l = g.deref(a["c"][0] if a["k"] == "assign" else a["c"][-2])
+                    for x in g.walk(l):
+                        if x["k"] == "ref" and x.get("dk") == "param":
+                            idx = [k for k, p_ in enumerate(g.params) if p_["n"] == x["n"] and "&" in p_["t"] and "const" not in p_["t"]]
+                            if idx:
+                                derived[(g.name, len(g.params))] = (idx[0], x["n"])
+    ctx.require(rid, len(derived) >= 1, "no out-parameter filled from tests against last_generator was found in MIP_Problem")
+    n = 0
+    seen = set()
+    for f in ms:
+        if (f.relfile, f.line) in seen:
+            continue
+        seen.add((f.relfile, f.line))
+        defs = []
+        for c in f.calls():
+            key = (f.call_name(c), len(f.call_args(c)))
+            if key in derived:
+                a = f.deref(f.call_args(c)[derived[key][0]])
+                if a is not None and a["k"] == "ref" and a.get("dk") == "local":
+                    defs.append((c, a["n"]))
+        merges = [c for c in f.calls() if f.call_name(c) == "merge_split_variable"]
+        for dcall, w in defs:
+            for t in merges:
+                pos = f.cfg_pos(t)
+                if pos is None or flow.Explorer(f, track_env=False).find_path(f.cfg_pos(dcall), lambda x: False, target=lambda x: x["i"] == t["i"]) is None:
+                    continue
+                n += 1
+                inst = "MIP_Problem::%s reads `%s` (filled by %s) after merge_split_variable()" % (f.name, w, f.call_name(dcall))
+                # locals written in the loop that holds the merge: what the merges reported
+                loop = next((a for a in f.ancestors(t) if a["k"] in ("for", "while", "do")), None)
+                reported = set()
+                if loop is not None:
+                    for x in f.walk(loop):
+                        if x["k"] == "mcall" and not x.get("cconst") and f.call_obj(x) is not None and f.call_obj(x)["k"] == "ref" and f.call_obj(x).get("dk") == "local":
+                            reported.add(f.call_obj(x)["n"])
+                        if x["k"] == "assign" and f.deref(x["c"][0]) is not None and f.deref(x["c"][0])["k"] == "ref" and f.deref(x["c"][0]).get("dk") == "local":
+                            reported.add(f.deref(x["c"][0])["n"])
+
+                def writes_w(x, w=w):
+                    if x["k"] == "assign":
+                        l = f.deref(x["c"][0])
+                        return l is not None and any(y["k"] == "ref" and y.get("n") == w for y in f.walk(l))
+                    if x["k"] in ("call", "mcall") and f.call_name(x) in ("fill", "assign", "clear", "swap", "resize") and any(y["k"] == "ref" and y.get("n") == w for y in f.walk(x)):
+                        return True
+                    return False
+                guards = set()
+                for i_ in f.walk():
+                    if i_["k"] == "if" and any(writes_w(x) for x in f.walk(f.deref(i_["c"][3]))) and \
+                            any(y["k"] == "ref" and y.get("n") in reported for y in f.walk(f.deref(i_["c"][2]))):
+                        for y in f.walk(f.deref(i_["c"][2])):
+                            guards.add(y["i"])
+
+                def reads_w(x, w=w):
+                    if writes_w(x) or x["i"] in guards:
+                        return False
+                    if x["k"] in ("call", "mcall") and x["i"] == dcall["i"]:
+                        return False
+                    return x["k"] == "ref" and x.get("n") == w and not any(writes_w(a) for a in f.ancestors(x))
+                p = flow.Explorer(f, track_env=False).find_path(pos, lambda x: writes_w(x) or x["i"] in guards, target=lambda x: any(reads_w(z) for z in f.walk(x)) and not writes_w(x))
+                if p is None:
+                    ctx.ok(rid, inst, f.where(t))
+                else:
+                    ctx.violation(rid, inst, f.where(t), "after the merge the tableau may no longer sit on last_generator, yet `%s`, computed against that point, is read without being recomputed or reset (path %s): inequalities it calls satisfied enter the basis without an artificial variable" % (w, flow.render_path(f, p)))
+    ctx.floor(rid, n, 1, "witness-derived locals read after a merge")
+
+
 def units():
     return [F.lib_unit("MIP_Problem.cc"),
             F.driver_unit("all_headers.cc", file_re=r"MIP_Problem_(inlines|templates)\.hh")]
@@ -137,5 +219,6 @@ def run(ctx):
     k = idioms.swap_remove(ctx, "R6.5", [f for f in fx.functions if f.clsn == "MIP_Problem" and not f.flag("pattern")], "its artificial variable stays basic and its row is no longer enforced")
     ctx.floor("R6.5", k, 1, "swap-remove loops in MIP_Problem")
     r6_7(ctx, fx)
+    r6_8(ctx, fx)
     from rules import dirty
     dirty.run(ctx, "R6.6", fx, lambda f: f.file.endswith("MIP_Problem.cc"), 28, "judged on MIP_Problem.cc")
